@@ -75,14 +75,18 @@ def h_trajectory_forward(env, N, r, prog, compiled=False):
     opsA = _ops(env, M, N, prog)
     circ = M.ci.Circuit(N)
 
+    # compiled: False | True (once, at the end) | list of positions k: compile() right after the k-th operation was added
+    # (a circuit compiled while it was still measurement-free, then extended, compiled again or not)
+    points = [] if compiled is False else ([len(opsA) - 1] if compiled is True else list(compiled))
+
     def build():
-        for kind, x in opsA:
+        for k, (kind, x) in enumerate(opsA):
             if kind == 'M':
                 circ.measure(*x)
             else:
                 circ.take(x)
-        if compiled:
-            circ.compile()          # with measurement layers only the unitary layers are compiled
+            if k in points:
+                circ.compile()          # with measurement layers only the unitary layers are compiled
         return circ.forward(A)
     env.reseed()
     ra = env.run(build)
@@ -332,6 +336,10 @@ def jobs(tier):
             J.append(dict(harness=('c14', 'h_trajectory_forward'), params=dict(N=2, r=r, prog=prog), timeout_s=600, cost=40))
             if r == 1:
                 J.append(dict(harness=('c14', 'h_trajectory_forward'), params=dict(N=2, r=r, prog=prog, compiled=True), timeout_s=600, cost=40))
+    for prog, pts in (([['gen', [0, 1]], ['M', [0]]], [0]), ([['gen', [0, 1]], ['M', [0]]], [0, 1]), ([['gen', [0]], ['M', [0, 1]], ['gen', [0, 1]]], [0]),
+                      ([['gen', [0]], ['gen', [0, 1]], ['M', [1]], ['gen', [1]]], [1, 3]), ([['M', [1]], ['gen', [0, 1]]], [0])):
+        for r in (0, 1):
+            J.append(dict(harness=('c14', 'h_trajectory_forward'), params=dict(N=2, r=r, prog=prog, compiled=pts), timeout_s=600, cost=40))
     for N in (1, 2):
         for outcome in (0, 1):
             J.append(dict(harness=('c14', 'h_postselect'), params=dict(N=N, outcome=outcome), timeout_s=600, cost=20))
